@@ -15,6 +15,7 @@ import (
 	"os"
 	"runtime"
 	"strconv"
+	"strings"
 	"sync"
 	"sync/atomic"
 	"time"
@@ -60,6 +61,13 @@ type Ctl struct {
 	adopt   *Thread // unregistered goroutines are attributed to this thread (library-spawned goroutines)
 	Trace   []string
 	Timeout time.Duration
+	// DetectBlock: RunUntil reports "blocked" as soon as NO goroutine of the process can make
+	// progress without the controller and at least one of them waits for a lock (instead of
+	// waiting for the time-out). Only one logical thread runs at a time and every other one is
+	// parked in a channel operation of the controller, so such a state is stable.
+	DetectBlock bool
+	quietPoints map[string]bool // yield points that are passed without a trace line
+	Mute        bool            // no trace lines for yield points that are passed (quiescent part of a family)
 }
 
 func NewCtl() *Ctl {
@@ -140,28 +148,103 @@ func (c *Ctl) RunUntil(name, point string, k int) stepOutcome {
 		th.resume <- struct{}{}
 	}
 	deadline := time.After(c.Timeout)
+	var poll <-chan time.Time
+	if c.DetectBlock {
+		tk := time.NewTicker(3 * time.Millisecond)
+		defer tk.Stop()
+		poll = tk.C
+	}
+	stable := 0
 	for {
+		var p string
+		var r threadResult
+		got := 0
 		select {
-		case p := <-th.arrive:
+		case p = <-th.arrive:
+			got = 1
+		case r = <-th.done:
+			got = 2
+		case <-deadline:
+			c.logf("%s blocked (wanted %s#%d)", name, point, k)
+			return stepOutcome{Kind: "blocked"}
+		case <-poll:
+			// An arrival (or the end of the thread) that is already pending comes first: a goroutine
+			// parked in the hand-over to the controller is waiting for the controller, not blocked.
+			select {
+			case p = <-th.arrive:
+				got = 1
+			case r = <-th.done:
+				got = 2
+			default:
+				if q, lw := processQuiet(); q && lw != "" {
+					stable++
+					if stable >= 3 {
+						c.logf("%s blocked in %s (wanted %s#%d)", name, lw, point, k)
+						return stepOutcome{Kind: "blocked", Point: lw}
+					}
+				} else {
+					stable = 0
+				}
+			}
+		}
+		switch got {
+		case 1:
+			stable = 0
 			th.counts[p]++
 			if p == point && th.counts[p] >= k {
 				c.logf("%s@%s#%d", name, p, th.counts[p])
 				th.parked = true
 				return stepOutcome{Kind: "arrived", Point: p}
 			}
-			if p != "visit" {
+			if p != "visit" && !c.Mute && !c.quietPoints[p] {
 				c.logf("%s@%s#%d", name, p, th.counts[p])
 			}
 			th.resume <- struct{}{}
-		case r := <-th.done:
+		case 2:
 			th.fin, th.res = true, r
 			c.logf("%s done", name)
 			return stepOutcome{Kind: "done"}
-		case <-deadline:
-			c.logf("%s blocked (wanted %s#%d)", name, point, k)
-			return stepOutcome{Kind: "blocked"}
 		}
 	}
+}
+
+// processQuiet reports whether every goroutine except the caller is parked in a channel / lock /
+// wait-group operation (nothing is running, runnable, sleeping, in a system call or waiting for
+// I/O), and names the lock operation one of them waits in ("" when none does).
+func processQuiet() (quiet bool, lockWait string) {
+	buf := make([]byte, 1<<16)
+	for {
+		n := runtime.Stack(buf, true)
+		if n < len(buf) {
+			buf = buf[:n]
+			break
+		}
+		buf = make([]byte, 2*len(buf))
+	}
+	first := true
+	for _, g := range bytes.Split(buf, []byte("\n\n")) {
+		if !bytes.HasPrefix(g, []byte("goroutine ")) {
+			continue
+		}
+		if first { // the caller
+			first = false
+			continue
+		}
+		i, j := bytes.IndexByte(g, '['), bytes.IndexAny(g, "],")
+		if i < 0 || j < i {
+			return false, ""
+		}
+		st := string(g[i+1 : j])
+		switch {
+		case strings.HasPrefix(st, "sync.Mutex.Lock"), strings.HasPrefix(st, "sync.RWMutex.Lock"), strings.HasPrefix(st, "sync.RWMutex.RLock"), st == "semacquire":
+			lockWait = st
+		case strings.HasPrefix(st, "chan "), strings.HasPrefix(st, "select"), strings.HasPrefix(st, "sync.WaitGroup.Wait"), strings.HasPrefix(st, "sync.Cond.Wait"),
+			st == "finalizer wait", strings.HasPrefix(st, "GC "), strings.HasPrefix(st, "force gc"):
+		default:
+			return false, ""
+		}
+	}
+	return true, lockWait
 }
 
 // ------------------------------------------------------------------------------------ hub
@@ -193,6 +276,9 @@ type Hub struct {
 	failPut  map[string]int
 	txCount  atomic.Int64
 	threadOf func() string
+	// fault injection: the next n write transactions whose closure succeeded fail at commit (the
+	// storage rolls back): a late fault for batches that have no counter bookkeeping
+	failCommit atomic.Int64
 }
 
 func NewHub(ctl *Ctl, side string) *Hub {
@@ -303,6 +389,9 @@ func (s *pStore) Write(f func(diskstore.BucketManager) error) error {
 	err := s.inner.Write(func(bm diskstore.BucketManager) error {
 		s.h.ctl.Yield("W.begin")
 		e := f(&pBM{inner: bm, tx: tx, h: s.h})
+		if e == nil && s.h.failCommit.Load() > 0 && s.h.failCommit.Add(-1) >= 0 {
+			e = fmt.Errorf("injected fault: commit")
+		}
 		if e == nil {
 			// still under bbolt's writer lock: the numbering is the commit order
 			seq = s.h.assigned.Add(1)
